@@ -5,6 +5,9 @@
 //     hash of the whole factorization object, and for the complex-shift class the probe shift the solver installed;
 //     `ckern …` requests pin the complex arithmetic of the back-transformations (std::sqrt(complex), the two roots, 1/nu + sigma).
 //   * oracle: the property's own predicate in long double against a dense reference (Eigen::EigenSolver<long double>).
+//   * structured complex-shift shares (all from the framework PRNG, replayable by (seed, tier, stream, case)): stream 1 |lambda - Re sigma| = |Im sigma|;
+//     stream 2 decoupled / block-diagonal matrices whose wanted eigenvectors vanish in the first nev coordinates (and controls); stream 3 exactly prescribed
+//     spectra (triangular, banded, block triangular, permuted) with Re sigma an exact eigenvalue (A - Re sigma I singular, A - sigma I regular).
 // Eigen's index/size assertions are turned into C++ exceptions (the technique of Eigen's own test-suite), so that an assertion
 // inside the library is a recorded result of ONE case, not the end of the run.
 #include <stdexcept>
@@ -160,15 +163,25 @@ static void check_pairs(OracleCtx& o, const CVec& ev, const CMat& X, double tol,
     CMatL AL = c.A.cast<LD>().cast<CL>(); MatL OpL = o.Op->cast<LD>();
     const LD eps23 = std::pow(EPS, 2.0L / 3.0L);
     if ((long) ev.size() != ret || X.cols() != ret || (ret > 0 && X.rows() != n)) { out.fail("counts", who + ": compute() returned " + str(ret) + " but eigenvalues().size() = " + str((long) ev.size()) + ", eigenvectors() is " + str((long) X.rows()) + "x" + str((long) X.cols()), rj("")); return; }
-    std::vector<long> match(ret, -1); std::vector<LD> dist(ret, 0); std::vector<int> tiny(ret, 0);
+    std::vector<long> match(ret, -1); std::vector<LD> dist(ret, 0); std::vector<int> tiny(ret, 0), nzv(ret, 0);
     for (long j = 0; j < ret; j++) {
         out.count("oracle_pairs");
         CL lam((LD) ev[j].real(), (LD) ev[j].imag()); CVecL x(n); for (long i = 0; i < n; i++) x[i] = CL((LD) X(i, j).real(), (LD) X(i, j).imag());
         bool finite = std::isfinite((double) lam.real()) && std::isfinite((double) lam.imag()); for (long i = 0; i < n && finite; i++) finite = std::isfinite((double) x[i].real()) && std::isfinite((double) x[i].imag());
-        if (!finite) { out.fail("nonfinite", who + ": pair " + str(j) + " handed back as converged contains NaN/inf", rj(",\"pair\":" + str(j))); continue; }
+        if (!finite) { int nz = 0; bool xfin = true; for (long i = 0; i < n && xfin; i++) xfin = std::isfinite((double) x[i].real()) && std::isfinite((double) x[i].imag());
+            if (c.variant == 2 && xfin && x.norm() > 0.5L) { const LD sc0 = R.normA + std::fabs((LD) c.sr) + std::fabs((LD) c.si); const long m0 = nearest(R, CL((LD) c.sr, 0)); if (std::abs(R.ev[m0] - CL((LD) c.sr, 0)) <= 1e-9L * sc0 && (AL * x - R.ev[m0] * x).norm() <= 1e-6L * sc0 * x.norm()) nz = 1; }
+            out.fail("nonfinite", who + ": pair " + str(j) + " handed back as converged contains NaN/inf", rj(",\"pair\":" + str(j) + ",\"nuzero\":" + str(nz))); continue; }
         const LD xn = x.norm();
         // mechanism keys of the replay (used by known-finding matching): a (numerically) zero vector; a tiny non-zero imaginary part
-        const std::string pk = ",\"pair\":" + str(j) + ",\"xnorm0\":" + str(xn < 1e-6L ? 1 : 0) + ",\"tinyimag\":" + str((lam.imag() != 0 && std::fabs(lam.imag()) <= 1e-6L * std::abs(lam)) ? 1 : 0);
+        // mechanism key `nuzero` (complex shift): A has an eigenvalue mu0 AT Re sigma (to rounding; its transformed value is nu = mu0' / (mu0'^2 + Im sigma^2) = 0 with
+        // mu0' = mu0 - Re sigma) and the returned vector is an eigenvector of A for mu0: the pair is the one whose lambda the code computes as the difference
+        // (Re sigma + 0.5 / nu) - 0.5 sqrt(1 - 4 Im sigma^2 nu^2) / nu of two numbers of size 1 / |nu| ~ 1 / eps (finding C02-resigma-cancellation)
+        int nuzero = 0;
+        if (c.variant == 2 && xn > 0.5L) { const LD sc0 = R.normA + std::fabs((LD) c.sr) + std::fabs((LD) c.si); const long m0 = nearest(R, CL((LD) c.sr, 0));
+            if (std::abs(R.ev[m0] - CL((LD) c.sr, 0)) <= 1e-9L * sc0 && (AL * x - R.ev[m0] * x).norm() <= 1e-6L * sc0 * xn) nuzero = 1; }
+        const std::string pk = ",\"pair\":" + str(j) + ",\"xnorm0\":" + str(xn < 1e-6L ? 1 : 0) + ",\"tinyimag\":" + str((lam.imag() != 0 && std::fabs(lam.imag()) <= 1e-6L * std::abs(lam)) ? 1 : 0) + ",\"nuzero\":" + str(nuzero);
+        if (nuzero) out.count("oracle_pairs_at_resigma");
+        nzv[j] = nuzero;
         tiny[j] = (lam.imag() != 0 && std::fabs(lam.imag()) <= 1e-6L * std::abs(lam));
         if (!(std::fabs(xn - 1) <= tolU)) out.fail("unit-norm", who + ": returned eigenvector " + str(j) + " has norm " + str((double) xn) + " (|norm - 1| = " + str((double) std::fabs(xn - 1)) + " > " + str((double) tolU) + " after " + str(o.niter) + " restarts; max|V'V - I| = " + str((double) o.vloss) + ")", rj(pk));
         const LD res = (AL * x - lam * x).norm();
@@ -188,6 +201,19 @@ static void check_pairs(OracleCtx& o, const CVec& ev, const CMat& X, double tol,
                 const LD d1 = std::abs(R.ev[nearest(R, lam)] - lam), d2 = std::abs(R.ev[nearest(R, lam2)] - lam2);
                 if (d2 <= 1e-7L * sc && d1 >= 1e-3L * sc) out.fail("wrong-root", who + ": returned eigenvalue " + str(j) + " = (" + str(ev[j].real()) + "," + str(ev[j].imag()) + ") is at distance " + str((double) d1) + " from the spectrum of A, but the OTHER root of the quadratic (" + str((double) lam2.real()) + "," + str((double) lam2.imag()) + ") is an eigenvalue (distance " + str((double) d2) + "): the root selection picked the wrong candidate", rj(pk));
             }
+        }
+        // the same clause when the factor is finite but huge: the other root lambda' computed from the ROUNDED returned value misses the eigenvalue it mirrors by a
+        // rounding error, A - lambda' I is then invertible in long double with a norm ~ 1/eps and the residual / Bauer-Fike bounds above hold vacuously.  Stated on its
+        // own: a unit-norm pair handed back as converged by a complex-shift solver whose value is clearly NOT in the spectrum (distance >= max(1e-3, 1000 tol) (||A|| + |sigma|),
+        // reference eigenvectors conditioned below 1e8) while its mirror image lambda' = Re sigma + Im sigma^2 / (lambda - Re sigma) IS an eigenvalue (distance <= 1e-7 (||A|| + |sigma|)):
+        // nu(lambda) = nu(lambda') is a Ritz value of a genuine eigenvalue and the wrong one of the two candidates was reported.  Not evaluated when the basis has lost
+        // orthonormality (mechanism key vloss of F13: the vectors the probing works on are noise).
+        if (bounded && c.variant == 2 && !vlossKey && std::fabs(xn - 1) <= tolU && R.condX < 1e8L && std::abs(lam - CL((LD) c.sr, 0)) > 0) {
+            const CL lam2 = CL((LD) c.sr, 0) + CL((LD) c.si * c.si, 0) / (lam - CL((LD) c.sr, 0));
+            const LD sc = R.normA + std::fabs((LD) c.sr) + std::fabs((LD) c.si);
+            const LD d1 = std::abs(R.ev[nearest(R, lam)] - lam), d2 = std::abs(R.ev[nearest(R, lam2)] - lam2);
+            out.count("oracle_mirror_checked");
+            if (d2 <= 1e-7L * sc && d1 >= std::max(1e-3L, 1e3L * (LD) tol) * sc) out.fail("wrong-root", who + ": returned eigenvalue " + str(j) + " = (" + str(ev[j].real()) + "," + str(ev[j].imag()) + ") is at distance " + str((double) d1) + " from the spectrum of A (||A x - lambda x|| = " + str((double) res) + "), but its mirror image (" + str((double) lam2.real()) + "," + str((double) lam2.imag()) + ") = Re sigma + Im sigma^2 / (lambda - Re sigma), the OTHER root of the quadratic, is an eigenvalue (distance " + str((double) d2) + "): the root selection picked the wrong candidate", rj(pk));
         }
         // lambda is reported in the spectrum of A (Bauer-Fike with the reference eigenvector matrix; skipped when A is (nearly) defective)
         const long m = nearest(R, lam); match[j] = m; dist[j] = std::abs(R.ev[m] - lam);
@@ -213,7 +239,13 @@ static void check_pairs(OracleCtx& o, const CVec& ev, const CMat& X, double tol,
             // a copied eigenvalue sitting on a different vector (overwrite)
             CVecL xi(n), xj(n); for (long q = 0; q < n; q++) { xi[q] = CL((LD) X(q, i).real(), (LD) X(q, i).imag()); xj[q] = CL((LD) X(q, j).real(), (LD) X(q, j).imag()); }
             const LD cs = std::abs(xi.dot(xj)) / (xi.norm() * xj.norm() + 1e-300L); const int par = cs > 0.99L ? 1 : 0;
-            out.fail("duplicate-eigenvalue", who + ": returned eigenvalues " + str(i) + " and " + str(j) + " are both copies of the simple eigenvalue (" + str((double) R.ev[match[i]].real()) + "," + str((double) R.ev[match[i]].imag()) + ") of A (gap to the rest of the spectrum " + str((double) gap) + "; |cos| of the two vectors " + str((double) cs) + ")", rj(",\"pair\":" + str(j) + ",\"xnorm0\":0,\"tinyimag\":" + str((tiny[i] || tiny[j]) ? 1 : 0) + ",\"parallel\":" + str(par))); return; }
+            // mechanism key `mirrorpair` (complex shift): the duplicated eigenvalue mu has a DIFFERENT eigenvalue of A as its mirror image Re sigma + Im sigma^2 / (mu - Re sigma):
+            // both have the same transformed value nu, the operator has a double eigenvalue and the iteration cannot separate the two eigenvectors (finding C02-mirror-pair);
+            // `nuzero`: one of the two pairs is the pair of the eigenvalue AT Re sigma (finding C02-resigma-cancellation: its garbage value landed on a neighbour)
+            int mirrorpair = 0;
+            if (c.variant == 2) { const CL mu = R.ev[match[i]]; const LD sc0 = R.normA + std::fabs((LD) c.sr) + std::fabs((LD) c.si);
+                if (std::abs(mu - CL((LD) c.sr, 0)) > 0) { const CL mm = CL((LD) c.sr, 0) + CL((LD) c.si * c.si, 0) / (mu - CL((LD) c.sr, 0)); const long q = nearest(R, mm); if (q != match[i] && std::abs(R.ev[q] - mm) <= 1e-7L * sc0 && std::abs(mm - mu) > 1e-3L * sc0) mirrorpair = 1; } }
+            out.fail("duplicate-eigenvalue", who + ": returned eigenvalues " + str(i) + " and " + str(j) + " are both copies of the simple eigenvalue (" + str((double) R.ev[match[i]].real()) + "," + str((double) R.ev[match[i]].imag()) + ") of A (gap to the rest of the spectrum " + str((double) gap) + "; |cos| of the two vectors " + str((double) cs) + ")", rj(",\"pair\":" + str(j) + ",\"xnorm0\":0,\"tinyimag\":" + str((tiny[i] || tiny[j]) ? 1 : 0) + ",\"parallel\":" + str(par) + ",\"mirrorpair\":" + str(mirrorpair) + ",\"nuzero\":" + str((nzv[i] || nzv[j]) ? 1 : 0))); return; }
     }
 }
 
@@ -304,6 +336,93 @@ static std::vector<Call> gen_history(Rng& r, int n, bool thorough) {
     return h;
 }
 
+// ---- structured complex-shift families (streams 2 and 3): GenEigsComplexShiftSolver only, LargestMagn (= nearest to sigma) in most histories ----
+static CD nu_of(CD lam, double sr, double si) { return 0.5 * (1.0 / (lam - CD(sr, si)) + 1.0 / (lam - CD(sr, -si))); }
+static void perm_similarity(Rng& r, Mat& A, const std::vector<int>& keep_off, int nfirst) {
+    // B(p[i], p[j]) = A(i, j): entries (and zeros) are moved, never recomputed; coordinates listed in keep_off are kept out of the first `nfirst` positions
+    const int n = (int) A.rows(); std::vector<int> p(n); for (int i = 0; i < n; i++) p[i] = i; for (int i = n - 1; i > 0; i--) std::swap(p[i], p[r.below(i + 1)]);
+    std::vector<char> off(n, 0); for (int i : keep_off) off[i] = 1;
+    for (int i = 0; i < n; i++) if (off[i] && p[i] < nfirst) { for (int j = 0; j < n; j++) if (!off[j] && p[j] >= nfirst) { std::swap(p[i], p[j]); break; } }
+    Mat B(n, n); for (int i = 0; i < n; i++) for (int j = 0; j < n; j++) B(p[i], p[j]) = A(i, j); A = B;
+}
+static void structured_history(Case& c, Rng& r, bool thorough, double keep_rule) {
+    c.calls = gen_history(r, c.n, thorough);
+    for (Call& k : c.calls) if (k.kind == 'C') { if (!r.coin(keep_rule)) k.sel = 0; if (k.maxit < 20) k.maxit = 60; if (k.tol > 1e-6) k.tol = 1e-10; }
+}
+// stream 2: decoupled (block-diagonal) real matrices: 1x1 real blocks, 2x2 rotation-scaling blocks [[a, b], [-b, a]] (pair a +- ib), small dense blocks;
+// the blocks that hold the eigenvalues nearest to sigma (largest |nu|) are placed so that their eigenvectors are supported AWAY from the first nev
+// coordinates (cfg decoupled-away, optionally hidden by a permutation similarity that keeps every zero exact: decoupled-away-perm), or INSIDE the
+// leading coordinates (control share: decoupled-inside), or anywhere (decoupled-mixed)
+static bool make_decoupled(Case& c, Rng& r, bool thorough) {
+    struct Blk { Mat M; std::vector<CD> ev; double score; };
+    c.variant = 2; c.mclass = 8; c.scale = 1.0; c.sub.clear();
+    const int nmax = thorough ? 22 : 14;
+    c.nev = r.range(1, 4); c.n = r.range(2 * c.nev + 6, std::max(2 * c.nev + 6, nmax)); { int lo = c.nev + 2; c.ncv = r.range(lo, std::min(c.n, lo + 6)); }
+    c.sr = 2.0 * r.sym(); c.si = 0.2 + 1.3 * r.unit();
+    const CD sg(c.sr, c.si), sgc(c.sr, -c.si);
+    std::vector<Blk> blocks; std::vector<CD> all; int p = 0;
+    auto clear_of = [&](const std::vector<CD>& ev) { for (const CD& z : ev) { if (std::abs(z - sg) < 0.15 || std::abs(z - sgc) < 0.15) return false; for (const CD& w : all) if (std::abs(z - w) < 0.05) return false; } return true; };
+    while (p < c.n) {
+        Blk b; bool ok = false; int kind = r.below(5); if (kind >= 3 && p + 3 > c.n) kind = r.below(3); if (kind == 2 && p + 2 > c.n) kind = 0;
+        for (int att = 0; att < 30 && !ok; att++) {
+            if (kind <= 1) { b.M = Mat::Constant(1, 1, 3.0 * r.sym()); b.ev = {CD(b.M(0, 0), 0)}; }
+            else if (kind == 2) { const double a = 2.5 * r.sym(), bb = 0.2 + 1.8 * r.unit(); b.M = Mat(2, 2); b.M << a, bb, -bb, a; b.ev = {CD(a, bb), CD(a, -bb)}; }
+            else { const int d = (kind == 4 && p + 4 <= c.n) ? 4 : 3; b.M = Mat(d, d); for (int i = 0; i < d; i++) for (int j = 0; j < d; j++) b.M(i, j) = 1.2 * r.sym(); const double sh = 2.0 * r.sym(); for (int i = 0; i < d; i++) b.M(i, i) += sh;
+                   Eigen::EigenSolver<Mat> es(b.M, false); b.ev.clear(); for (int i = 0; i < d; i++) b.ev.push_back(es.eigenvalues()[i]); }
+            ok = clear_of(b.ev);
+            if (!ok && att == 20) kind = 0;
+        }
+        if (!ok) return false;
+        b.score = 0; for (const CD& z : b.ev) { b.score = std::max(b.score, std::abs(nu_of(z, c.sr, c.si))); all.push_back(z); }
+        p += (int) b.M.rows(); blocks.push_back(b);
+    }
+    // wanted blocks: by decreasing score until they hold nev + 1 eigenvalues (one beyond nev: the solver may take both members of a pair)
+    std::vector<int> ord(blocks.size()); for (size_t i = 0; i < ord.size(); i++) ord[i] = (int) i; std::stable_sort(ord.begin(), ord.end(), [&](int a, int b) { return blocks[a].score > blocks[b].score; });
+    std::vector<int> W, U; int cnt = 0, dW = 0; for (int i : ord) { if (cnt < c.nev + 1) { W.push_back(i); cnt += (int) blocks[i].ev.size(); dW += (int) blocks[i].M.rows(); } else U.push_back(i); }
+    if (c.n - dW < c.nev) return false;
+    auto shuffle = [&](std::vector<int>& v) { for (int i = (int) v.size() - 1; i > 0; i--) std::swap(v[i], v[r.below(i + 1)]); };
+    shuffle(W); shuffle(U);
+    const int share = (int) (c.idx % 8);     // 0,1,2,4 away; 3,5 away + permutation; 6 inside (control); 7 mixed
+    const bool away = (share <= 5), inside = (share == 6), perm = (share == 3 || share == 5);
+    std::vector<int> layout; if (away) { layout = U; layout.insert(layout.end(), W.begin(), W.end()); } else if (inside) { layout = W; layout.insert(layout.end(), U.begin(), U.end()); } else { layout = U; layout.insert(layout.end(), W.begin(), W.end()); shuffle(layout); }
+    c.A = Mat::Zero(c.n, c.n); std::vector<int> wcoord; std::vector<char> isW(blocks.size(), 0); for (int i : W) isW[i] = 1;
+    { int q = 0; for (int i : layout) { const int d = (int) blocks[i].M.rows(); c.A.block(q, q, d, d) = blocks[i].M; if (isW[i]) for (int t = 0; t < d; t++) wcoord.push_back(q + t); q += d; } }
+    if (perm) perm_similarity(r, c.A, wcoord, c.nev);
+    c.cfg = away ? (perm ? "decoupled-away-perm" : "decoupled-away") : inside ? "decoupled-inside" : "decoupled-mixed"; c.sub = "blocks=" + str(blocks.size()) + ",wanted-dim=" + str(dW);
+    structured_history(c, r, thorough, 0.15);
+    return true;
+}
+// stream 3: upper triangular / diagonal plus banded strictly upper / block upper triangular (2x2 rotation-scaling diagonal blocks) matrices whose eigenvalues are
+// prescribed EXACTLY (multiples of 1/4 on the diagonal), sigma = (an exact real eigenvalue) + i tau, tau in {0.1, ..., 2}: A - Re sigma I is exactly singular while
+// A - sigma I is regular (cfg exact-resigma-*); or Re sigma = the real part a of a 2x2 block a +- ib, Im sigma != b (cfg exact-resigma-blockre)
+static bool make_exact_resigma(Case& c, Rng& r, bool thorough) {
+    c.variant = 2; c.mclass = 5; c.scale = 1.0; c.sub.clear();
+    const int nmax = thorough ? 22 : 14;
+    c.nev = r.range(1, 4); c.n = r.range(std::max(7, c.nev + 4), nmax); { int lo = c.nev + 2; c.ncv = r.range(lo, std::min(c.n, lo + 6)); }
+    const int style = (int) (c.idx % 5);     // 0 dense upper triangular, 1 diagonal + banded strictly upper, 2 block upper triangular, 3 block upper triangular with Re sigma on a block, 4 as 0 or 2 behind a permutation similarity
+    const bool blocksty = (style == 2 || style == 3 || (style == 4 && r.coin()));
+    std::vector<int> ks(41); for (int i = 0; i < 41; i++) ks[i] = i - 20; for (int i = 40; i > 0; i--) std::swap(ks[i], ks[r.below(i + 1)]);
+    static const double BS[6] = {0.5, 0.75, 1.0, 1.25, 1.5, 2.0}, TAUS[7] = {0.1, 0.25, 0.5, 0.7, 1.0, 1.5, 2.0};
+    c.A = Mat::Zero(c.n, c.n); std::vector<char> blockstart(c.n, 0); std::vector<double> reals; std::vector<CD> pairs; int p = 0, kq = 0;
+    while (p < c.n) {
+        const double a = 0.25 * ks[kq++];
+        if (blocksty && p + 2 <= c.n && (r.coin(0.3) || (style == 3 && pairs.empty() && p + 3 >= c.n))) { const double b = BS[r.below(6)]; c.A(p, p) = a; c.A(p + 1, p + 1) = a; c.A(p, p + 1) = b; c.A(p + 1, p) = -b; blockstart[p] = 1; pairs.push_back(CD(a, b)); p += 2; }
+        else { c.A(p, p) = a; reals.push_back(a); p++; }
+    }
+    if (reals.empty() || (style == 3 && pairs.empty())) return false;
+    const bool banded = (style == 1); const double g = banded ? 0.5 : (r.coin() ? 0.1 : 0.3);
+    for (int i = 0; i < c.n; i++) for (int j = i + 1; j < c.n; j++) { if (j == i + 1 && blockstart[i]) continue; if (banded && j - i > 2) continue; c.A(i, j) = g * r.sym(); }
+    double tau = TAUS[r.below(7)];
+    if (style == 3) { const CD z = pairs[r.below(pairs.size())]; c.sr = z.real(); for (int t = 0; t < 7 && std::fabs(tau - z.imag()) < 0.2; t++) tau = TAUS[(r.below(7) + t) % 7]; if (std::fabs(tau - z.imag()) < 0.2) return false; c.cfg = "exact-resigma-blockre"; }
+    else { c.sr = reals[r.below(reals.size())]; c.cfg = style == 0 ? "exact-resigma-tri" : style == 1 ? "exact-resigma-banded" : style == 2 ? "exact-resigma-blocktri" : "exact-resigma-perm"; }
+    c.si = tau;
+    for (const CD& z : pairs) if (std::abs(z - CD(c.sr, c.si)) < 0.15) return false;
+    if (style == 4) perm_similarity(r, c.A, std::vector<int>(), 0);
+    c.sub = std::string(blocksty ? "block-triangular" : banded ? "diagonal-plus-banded-upper" : "upper-triangular") + ",tau=" + str(tau) + ",pairs=" + str(pairs.size());
+    structured_history(c, r, thorough, 0.25);
+    return true;
+}
+
 static bool make_case(Case& c, uint64_t seed, const std::string& tier, int stream, long idx) {
     const bool thorough = tier == "thorough"; Rng r(seed, 20 + stream, idx);
     c.seed = seed; c.tier = tier; c.stream = stream; c.idx = idx;
@@ -324,6 +443,8 @@ static bool make_case(Case& c, uint64_t seed, const std::string& tier, int strea
         for (Call& k : c.calls) if (k.kind == 'C') { k.sel = 0; if (k.maxit < 20) k.maxit = 60; if (k.tol > 1e-6) k.tol = 1e-10; }
         return true;
     }
+    if (stream == 2) return make_decoupled(c, r, thorough);
+    if (stream == 3) return make_exact_resigma(c, r, thorough);
     if (c.variant == 0) return true;
     // shift: keep A - sigma I comfortably nonsingular (the shift-and-invert domain)
     Eigen::EigenSolver<Mat> es(c.A, false); Eigen::VectorXcd ev = es.eigenvalues(); double rad = 0; for (long i = 0; i < ev.size(); i++) rad = std::max(rad, std::abs(ev[i])); rad = std::max(rad, 1e-3 * c.scale);
@@ -343,8 +464,11 @@ static void kernel_cases(Out& out, uint64_t seed, int count) {
         if (kind == 0) { double a = val(), b = val(); CD z = std::sqrt(CD(a, b)); out.corr("ckern sqrt " + str(dbits(a)) + " " + str(dbits(b)), str(dbits(z.real())) + " " + str(dbits(z.imag()))); }
         else if (kind == 1) { double sr = val(), si = std::fabs(val()) + (r.coin(0.2) ? 0.0 : 0.125), a = val(), b = r.coin(0.5) ? 0.0 : val(); if (a == 0.0 && b == 0.0) a = 0.75;
             if (r.coin(0.3)) { a = 1.0 / (2.0 * si) * (1 + (r.coin(0.5) ? 0.0 : r.sym() * 4e-16)); b = 0.0; }    // discriminant 1 - 4 si^2 nu^2 at (or next to) zero
-            const CD nu(a, b); const CD p1 = sr + 0.5 / nu; const CD p2 = 0.5 * std::sqrt(1.0 - 4.0 * si * si * (nu * nu)) / nu; const CD r1 = p1 + p2, r2 = p1 - p2;
-            out.corr("ckern roots " + str(dbits(sr)) + " " + str(dbits(si)) + " " + str(dbits(a)) + " " + str(dbits(b)), str(dbits(r1.real())) + " " + str(dbits(r1.imag())) + " " + str(dbits(r2.real())) + " " + str(dbits(r2.imag()))); }
+            if (r.coin(0.2)) { const double tiny = r.coin() ? 1e-17 : 1e-30; a = r.sym() * tiny; b = r.coin(0.5) ? 0.0 : r.sym() * tiny; if (r.coin(0.25)) { a = r.coin() ? 0.0 : -0.0; b = r.coin() ? 0.0 : -0.0; } }   // nu at / next to 0: the eigenvalue at Re sigma (root2 = sr exactly for nu = 0)
+            const CD nu(a, b); const CD sq = std::sqrt(1.0 - 4.0 * si * si * (nu * nu)); const CD p1 = sr + 0.5 / nu; const CD p2 = 0.5 * sq / nu; const CD r1 = p1 + p2, r2 = sr + (2.0 * si * si) * nu / (1.0 + sq);   // as sort_ritzpair since 0117f45
+            // nu = 0 exactly: root1 = 0.5 / nu is inf/NaN by the C99 recovery path of __divdc3 (not modelled, never a candidate: its probe error is NaN); only root2 is pinned
+            if (a == 0.0 && b == 0.0) out.corr("ckern root2 " + str(dbits(sr)) + " " + str(dbits(si)) + " " + str(dbits(a)) + " " + str(dbits(b)), str(dbits(r2.real())) + " " + str(dbits(r2.imag())));
+            else out.corr("ckern roots " + str(dbits(sr)) + " " + str(dbits(si)) + " " + str(dbits(a)) + " " + str(dbits(b)), str(dbits(r1.real())) + " " + str(dbits(r1.imag())) + " " + str(dbits(r2.real())) + " " + str(dbits(r2.imag()))); }
         else if (kind == 2) { double sg = val(), a = val(), b = r.coin(0.5) ? 0.0 : val(); if (a == 0.0 && b == 0.0) a = -1.25; const CD nu(a, b); const CD l = 1.0 / nu + sg;
             out.corr("ckern rsback " + str(dbits(sg)) + " " + str(dbits(a)) + " " + str(dbits(b)), str(dbits(l.real())) + " " + str(dbits(l.imag()))); }
         else { double sr = val(); Spectra::SimpleRandom<double> rng(0); const double shiftr = rng.random() * sr + rng.random(); out.corr("ckern probeshift " + str(dbits(sr)), str(dbits(shiftr))); }
@@ -366,6 +490,10 @@ int main(int argc, char** argv) {
     const int ncases = th ? 16000 : 2400, ntarget = th ? 1000 : 180;
     for (int cs = 0; cs < ncases; cs++) { Case c; if (!make_case(c, args.seed, args.tier, 0, cs)) { out.count("case_no_shift_found"); continue; } run_case(c, out, c.ncv <= 16); }
     for (int cs = 0; cs < ntarget; cs++) { Case c; if (!make_case(c, args.seed, args.tier, 1, cs)) continue; run_case(c, out, c.ncv <= 16); }
+    // structured complex-shift shares: decoupled matrices with the wanted eigenvectors away from / inside the leading coordinates (stream 2), exactly prescribed
+    // spectra with Re sigma an exact eigenvalue (stream 3)
+    const int nstruct = th ? 800 : 160;
+    for (int st = 2; st <= 3; st++) for (int cs = 0; cs < nstruct; cs++) { Case c; if (!make_case(c, args.seed, args.tier, st, cs)) { out.count("structured_case_not_generated"); continue; } out.count(st == 2 ? "stream_decoupled" : "stream_exact_resigma"); run_case(c, out, c.ncv <= 16); }
     kernel_cases(out, args.seed, th ? 20000 : 2000);
     out.finish();
     return 0;
